@@ -19,12 +19,36 @@ pub fn scenario_regime(tier: &str, poor: bool) -> (Life, Bounds) {
         money_devs: true,
         precommits: th,
         horizon: None,
+        big: false,
     };
     let b = if th {
         Bounds { max_depth: 400, max_faults: 1, wall_cap_s: 700.0, ..Default::default() }
     } else {
         Bounds { max_depth: 400, max_faults: 1, wall_cap_s: 40.0, ..Default::default() }
     };
+    (Life { cfg }, b)
+}
+
+/// 64 GiB sectors: the miner's balance is (almost) all initial pledge at FIL scale, so a charge
+/// can exceed what is collectable while a transfer of a few FIL would still succeed.
+pub fn scenario_big(tier: &str) -> (Life, Bounds) {
+    let th = tier_is_thorough(tier);
+    let cfg = LifeCfg {
+        name: "c15-pledge-only",
+        periods: if th { 3 } else { 2 },
+        devs: if th { 2 } else { 1 },
+        bases: if th { vec!["bad-post-closed-debt", "bad-post-closed", "one-deadline-aged-debt", "long-faulty-debt"] } else { vec!["bad-post-closed-debt", "one-deadline-aged-debt"] },
+        oracles: Oracles { c15: true, ..Default::default() },
+        sector_sets: sets_small(),
+        known_open: mcx::evidence::known_open("C15"),
+        property: "C15",
+        poor: Some(TokenAmount::from_whole(6) + TokenAmount::from_nano(500_000_000)),
+        money_devs: true,
+        precommits: false,
+        horizon: None,
+        big: true,
+    };
+    let b = Bounds { max_depth: 400, max_faults: 1, wall_cap_s: if th { 400.0 } else { 25.0 }, ..Default::default() };
     (Life { cfg }, b)
 }
 
@@ -43,5 +67,7 @@ pub fn run(tier: &str) -> ! {
         let (scn, b) = scenario_regime(tier, poor);
         run.add(mcx::explore(&scn, &b));
     }
+    let (scn, b) = scenario_big(tier);
+    run.add(mcx::explore(&scn, &b));
     run.finish()
 }
